@@ -29,6 +29,7 @@ type heldLock struct {
 	mode     string // "R" | "W"
 	key      string // printed lock expression, used to match the release
 	deferred bool   // released by a defer: held until the frame ends
+	frame    int    // activation (function body / synchronously executed closure) that acquired it
 }
 
 type lgSite struct {
@@ -41,12 +42,22 @@ type lgSite struct {
 	Pos    string   `json:"pos"`
 }
 
+// a path through a function that leaves it (return, panic, falling off the end) while a lock the
+// function acquired itself is neither released nor scheduled for release by a defer
+type lgLeak struct {
+	Fn   string `json:"fn"`
+	Lock string `json:"lock"`
+	Pos  string `json:"pos"`
+	How  string `json:"how"`
+}
+
 type lgResult struct {
-	Sites   []lgSite `json:"sites"`
-	Notes   []string `json:"notes"`
-	Classes []string `json:"classes"`
-	Fns     []string `json:"fns"`
-	NFuncs  int      `json:"functions_analysed"`
+	Unbalanced []lgLeak `json:"unbalanced"`
+	Sites      []lgSite `json:"sites"`
+	Notes      []string `json:"notes"`
+	Classes    []string `json:"classes"`
+	Fns        []string `json:"fns"`
+	NFuncs     int      `json:"functions_analysed"`
 }
 
 // a declared function or method (or a function literal) used as a value somewhere in the analysed
@@ -67,6 +78,18 @@ type lgWalker struct {
 	recvName string        // name of the receiver variable of the enclosing declared method
 	exported bool          // enclosing declared function is exported / usable from outside
 	curCall  *ast.CallExpr
+	frame    int // current activation depth (closures executed in place count as activations)
+}
+
+// exit: control leaves the current activation at pos; every lock this activation acquired must
+// have been released or be covered by a defer.
+func (lw *lgWalker) exit(pos token.Pos, held []heldLock, how string) {
+	for _, h := range held {
+		if h.frame == lw.frame && !h.deferred {
+			lw.res.Unbalanced = append(lw.res.Unbalanced, lgLeak{Fn: strings.SplitN(lw.fn, "$lit", 2)[0], Lock: h.class + "/" + h.mode + " (" + h.key + ")", Pos: lw.w.pos(pos), How: how})
+			lw.note(pos, "UNBALANCED %s while still holding %s/%s (%s): not released on this path", how, h.class, h.mode, h.key)
+		}
+	}
 }
 
 func (lw *lgWalker) note(pos token.Pos, f string, a ...any) {
@@ -242,7 +265,7 @@ func (lw *lgWalker) call(c *ast.CallExpr, held []heldLock, inDefer bool) []heldL
 				return held
 			}
 			lw.emitAcq(c.Pos(), held, class, mode)
-			return append(copyHeld(held), heldLock{class: class, mode: mode, key: key})
+			return append(copyHeld(held), heldLock{class: class, mode: mode, key: key, frame: lw.frame})
 		case "Unlock", "RUnlock":
 			mode := "W"
 			if m == "RUnlock" {
@@ -377,7 +400,12 @@ func (lw *lgWalker) interfaceCall(c *ast.CallExpr, fun *ast.SelectorExpr, sel *t
 // own defer scope.  Locks it still holds at its end (not deferred-released) stay held.
 func (lw *lgWalker) closure(fl *ast.FuncLit, held []heldLock) []heldLock {
 	n := len(held)
-	out, _ := lw.block(fl.Body.List, held)
+	lw.frame++
+	out, term := lw.block(fl.Body.List, held)
+	if !term {
+		lw.exit(fl.Body.End(), out, "end of closure reached")
+	}
+	lw.frame--
 	// entries acquired inside and released by a defer inside end with the closure
 	res := []heldLock{}
 	for i, h := range out {
@@ -506,7 +534,11 @@ func (lw *lgWalker) stmt(s ast.Stmt, held []heldLock) ([]heldLock, bool) {
 		return held, false
 	case *ast.ExprStmt:
 		held = lw.expr(x.X, held, false)
-		return held, terminates(s)
+		if terminates(s) {
+			lw.exit(s.Pos(), held, "panic")
+			return held, true
+		}
+		return held, false
 	case *ast.AssignStmt:
 		for _, e := range x.Rhs {
 			held = lw.expr(e, held, false)
@@ -528,6 +560,7 @@ func (lw *lgWalker) stmt(s ast.Stmt, held []heldLock) ([]heldLock, bool) {
 		for _, e := range x.Results {
 			held = lw.expr(e, held, false)
 		}
+		lw.exit(s.Pos(), held, "return")
 		return held, true
 	case *ast.GoStmt:
 		// operands are evaluated here; the call itself runs in a new goroutine holding nothing
@@ -656,11 +689,9 @@ func (lw *lgWalker) function(body *ast.BlockStmt) {
 	if body == nil {
 		return
 	}
-	held, _ := lw.block(body.List, nil)
-	for _, h := range held {
-		if !h.deferred {
-			lw.note(body.End(), "UNSUPPORTED may return holding %s/%s (%s)", h.class, h.mode, h.key)
-		}
+	held, term := lw.block(body.List, nil)
+	if !term {
+		lw.exit(body.End(), held, "end of function reached")
 	}
 }
 
@@ -831,6 +862,9 @@ func analyseLockGraphAcc(w *world, acc *accCollector) *lgResult {
 			cs[h[:strings.LastIndex(h, "/")]] = true
 		}
 	}
+	for _, u := range res.Unbalanced {
+		fs[u.Fn] = true
+	}
 	for c := range cs {
 		res.Classes = append(res.Classes, c)
 	}
@@ -873,6 +907,22 @@ func (res *lgResult) coq() string {
 			sep = ""
 		}
 		fmt.Fprintf(&b, "  (%d, %s)%s\n", i, coqString(f), sep)
+	}
+	b.WriteString("].\n\n(* functions with a path (return, panic, end) that leaves them while a lock they acquired is neither\n   released nor covered by a defer; positions are in the translator's notes *)\nDefinition unbalanced : list fname := [")
+	ub := map[string]bool{}
+	var ubs []string
+	for _, u := range res.Unbalanced {
+		if !ub[u.Fn] {
+			ub[u.Fn] = true
+			ubs = append(ubs, u.Fn)
+		}
+	}
+	sort.Strings(ubs)
+	for i, f := range ubs {
+		if i > 0 {
+			b.WriteString("; ")
+		}
+		fmt.Fprintf(&b, "%d (* %s *)", fi[f], f)
 	}
 	b.WriteString("].\n\nDefinition table : lock_table := [\n")
 	for i, s := range res.Sites {
